@@ -333,6 +333,7 @@ class ModInfo:
         self.nassign = {}
         self.funcs = {q: f for q, f in mod.funcs.items() if "." not in q and "#" not in q}
         self.proc_globals = set()
+        self.classes = {st.name: st for st in mod.tree.body if isinstance(st, ast.ClassDef)}
         for st in mod.tree.body:
             if isinstance(st, ast.Import):
                 for a in st.names:
@@ -355,9 +356,18 @@ class ModInfo:
                             self.nassign[n.id] = self.nassign.get(n.id, 0) + 1
                     if isinstance(t, ast.Name):
                         self.consts[t.id] = st.value
+        uses_globals_dict = False
+        strs = set()
         for f in ast.walk(mod.tree):
             if isinstance(f, ast.Global):
                 self.proc_globals.update(f.names)
+            elif isinstance(f, ast.Call) and isinstance(f.func, ast.Name) and f.func.id in ("globals", "vars"):
+                uses_globals_dict = True
+            elif isinstance(f, ast.Constant) and isinstance(f.value, str):
+                strs.add(f.value)
+        if uses_globals_dict:
+            # `globals()[name] = ...` needs no declaration: every module-level name that is spelled as a string somewhere may be rebound
+            self.proc_globals.update(n for n in self.consts if n in strs)
 
 
 class World:
@@ -433,7 +443,8 @@ class World:
             if isinstance(n, (ast.For, ast.While)) or (isinstance(n, ast.Subscript) and isinstance(n.ctx, ast.Store)) or \
                     (isinstance(n, ast.AugAssign) and not isinstance(n.target, ast.Name)):
                 out.add("stores")       # fills arrays itself: followed, so that a loop moved into a helper is still seen
-            if isinstance(n, (ast.Global, ast.Nonlocal)):
+            if isinstance(n, (ast.Global, ast.Nonlocal)) or \
+                    (isinstance(n, ast.Call) and isinstance(n.func, ast.Name) and n.func.id in ("globals", "vars", "setattr")):
                 out.add("global")
             elif isinstance(n, ast.AugAssign):
                 if base(n.target) in alias and not (isinstance(n.target, ast.Name) and n.target.id not in params and False):
